@@ -55,6 +55,7 @@ type Contract struct {
 	Exceptional []*Clause // onpanic ensures
 	Witnesses   []*Witness
 	Splits      [][]*Clause // case splits applied to every ensures clause (cartesian product)
+	TrustFrame  bool     // the modifies clause is assumed, not checked (reported as an assumption)
 	Unfold      []string // callees (by key suffix) to inline in this function even when they have loops / contracts
 }
 
@@ -79,13 +80,31 @@ type ContractSet struct {
 	Order   []string
 	Files   []string
 	Defines map[string]*Define // "pkgpath.name"
+	Globals []*GlobalInv
+}
+
+// GlobalInv: "//@ global label:: expr" - a Go expression over package-level variables that are never written
+// after package initialisation.  Assumed everywhere; discharged by running the real package init (generated
+// test) plus a write audit.
+type GlobalInv struct {
+	Pkg    string
+	Clause *Clause
 }
 
 func newContractSet() *ContractSet {
 	return &ContractSet{ByKey: map[string]*Contract{}, Defines: map[string]*Define{}}
 }
 
-func (cs *ContractSet) get(key string) *Contract { return cs.ByKey[key] }
+func (cs *ContractSet) get(key string) *Contract {
+	if c, ok := cs.ByKey[key]; ok {
+		return c
+	}
+	// instantiated generic: contract is stated on the generic function
+	if i := strings.Index(key, "["); i > 0 {
+		return cs.ByKey[key[:i]]
+	}
+	return nil
+}
 
 // parseContractFile reads //@ lines.  pkgPath is prefixed to "func" keys that
 // are not already qualified (contain a '/' or a leading known package path).
@@ -131,6 +150,23 @@ func (cs *ContractSet) parseFile(path, pkgPath string) error {
 				return fmt.Errorf("%s:%d: %v in %q", path, ln, err, body)
 			}
 			cs.Defines[pkgPath+"."+name] = &Define{Name: name, Params: params, Body: e, Text: body}
+			continue
+		}
+		if word == "global" {
+			text := rest
+			label := ""
+			if i := strings.Index(text, "::"); i > 0 && !strings.ContainsAny(text[:i], " ()") {
+				label = text[:i]
+				text = strings.TrimSpace(text[i+2:])
+			}
+			e, err := parser.ParseExpr(text)
+			if err != nil {
+				return fmt.Errorf("%s:%d: %v in %q", path, ln, err, text)
+			}
+			if label == "" {
+				label = fmt.Sprintf("g%d", len(cs.Globals)+1)
+			}
+			cs.Globals = append(cs.Globals, &GlobalInv{Pkg: pkgPath, Clause: &Clause{Label: label, Text: text, Expr: e, File: path, Line: ln}})
 			continue
 		}
 		if word == "func" {
@@ -283,6 +319,8 @@ func (cs *ContractSet) parseFile(path, pkgPath string) error {
 				alts = append(alts, c)
 			}
 			cur.Splits = append(cur.Splits, alts)
+		case "trustframe":
+			cur.TrustFrame = true
 		case "unfold":
 			cur.Unfold = append(cur.Unfold, strings.Fields(rest)...)
 		case "property":
